@@ -309,6 +309,23 @@ def main():
         'not_covered': P.get('not_covered', ''),
         'exhaustive': False,
     }
+    # source scans backing an assumption (e.g. C17: the artifact generator has no fs writes)
+    scans = []
+    for sc in P.get('scans', []):
+        hits = []
+        base = os.path.join('/repo', sc['path'])
+        for dp, _, fs in os.walk(base):
+            for fn in fs:
+                if fn.endswith('.rs'):
+                    try:
+                        for no, l in enumerate(open(os.path.join(dp, fn), encoding='utf-8'), 1):
+                            code = l.split('//')[0]
+                            if any(re.search(pat, code) for pat in sc['patterns']):
+                                hits.append('%s:%d: %s' % (os.path.relpath(os.path.join(dp, fn), '/repo'), no, l.strip()[:120]))
+                    except Exception:
+                        pass
+        scans.append({'what': sc['what'], 'path': sc['path'], 'patterns': sc['patterns'], 'hits': hits})
+    cov['assumption_scans'] = scans
     if level != 'proof' or discharged != n_obl or n_obl == 0:
         # schema: a proof-level claim needs discharged == obligations
         ev_level = level if (level != 'proof') else 'other'
